@@ -116,6 +116,22 @@ module Nat =
     | S n' -> (match m with
                | O -> false
                | S m' -> leb n' m')
+
+  (** val divmod : nat -> nat -> nat -> nat -> nat * nat **)
+
+  let rec divmod x y q0 u =
+    match x with
+    | O -> (q0, u)
+    | S x' ->
+      (match u with
+       | O -> divmod x' y (S q0) y
+       | S u' -> divmod x' y q0 u')
+
+  (** val div : nat -> nat -> nat **)
+
+  let div x y = match y with
+  | O -> y
+  | S y' -> fst (divmod x y' O y')
  end
 
 module Pos =
@@ -268,6 +284,13 @@ module Coq_Pos =
   | XI p0 -> S (size_nat p0)
   | XO p0 -> S (size_nat p0)
   | XH -> S O
+
+  (** val size : positive -> positive **)
+
+  let rec size = function
+  | XI p0 -> succ (size p0)
+  | XO p0 -> succ (size p0)
+  | XH -> XH
 
   (** val compare_cont : comparison -> positive -> positive -> comparison **)
 
@@ -716,6 +739,27 @@ module Z =
   let quot a b =
     fst (quotrem a b)
 
+  (** val even : z -> bool **)
+
+  let even = function
+  | Z0 -> true
+  | Zpos p -> (match p with
+               | XO _ -> true
+               | _ -> false)
+  | Zneg p -> (match p with
+               | XO _ -> true
+               | _ -> false)
+
+  (** val log2 : z -> z **)
+
+  let log2 = function
+  | Zpos p0 ->
+    (match p0 with
+     | XI p -> Zpos (Coq_Pos.size p)
+     | XO p -> Zpos (Coq_Pos.size p)
+     | XH -> Z0)
+  | _ -> Z0
+
   (** val ggcd : z -> z -> z * (z * z) **)
 
   let ggcd a b =
@@ -740,6 +784,12 @@ module Z =
          let (g, p) = Coq_Pos.ggcd a0 b0 in
          let (aa, bb) = p in ((Zpos g), ((Zneg aa), (Zneg bb))))
  end
+
+(** val hd : 'a1 -> 'a1 list -> 'a1 **)
+
+let hd default = function
+| [] -> default
+| x :: _ -> x
 
 (** val tl : 'a1 list -> 'a1 list **)
 
@@ -996,11 +1046,11 @@ let wrap t x =
        else Z.sub r m
   else r
 
-(** val size : z list -> z **)
+(** val size0 : z list -> z **)
 
-let rec size = function
+let rec size0 = function
 | [] -> Zpos XH
-| d :: r -> Z.mul d (size r)
+| d :: r -> Z.mul d (size0 r)
 
 (** val ravel : z list -> z list -> z **)
 
@@ -1010,14 +1060,14 @@ let rec ravel sh pos =
   | _ :: r ->
     (match pos with
      | [] -> Z0
-     | p :: q0 -> Z.add (Z.mul p (size r)) (ravel r q0))
+     | p :: q0 -> Z.add (Z.mul p (size0 r)) (ravel r q0))
 
 (** val unravel : z list -> z -> z list **)
 
 let rec unravel sh i =
   match sh with
   | [] -> []
-  | _ :: r -> (Z.div i (size r)) :: (unravel r (Z.modulo i (size r)))
+  | _ :: r -> (Z.div i (size0 r)) :: (unravel r (Z.modulo i (size0 r)))
 
 (** val in_shapeb : z list -> z list -> bool **)
 
@@ -1034,7 +1084,7 @@ let rec in_shapeb sh pos =
 (** val all_positions : z list -> z list list **)
 
 let all_positions sh =
-  map (unravel sh) (zseq Z0 (Z.to_nat (size sh)))
+  map (unravel sh) (zseq Z0 (Z.to_nat (size0 sh)))
 
 type arr = { shape : z list; data : z list }
 
@@ -1413,7 +1463,7 @@ let dilate_step d f bc o p =
 
 let dilate_generic d f bc =
   fold_left (dilate_step d f bc) (all_positions f.shape)
-    (repeat (dmin d) (Z.to_nat (size f.shape)))
+    (repeat (dmin d) (Z.to_nat (size0 f.shape)))
 
 (** val satd : dt -> z -> z **)
 
@@ -1660,7 +1710,7 @@ let rank_filter mode f bc rank garbage =
     match rank_at mode f bc rank (snd ip) with
     | Some v -> v
     | None -> nthZ Z0 garbage (fst ip))
-    (combine (zseq Z0 (Z.to_nat (size f.shape))) (all_positions f.shape))
+    (combine (zseq Z0 (Z.to_nat (size0 f.shape))) (all_positions f.shape))
 
 (** val median_rank : arr -> z **)
 
@@ -2060,7 +2110,7 @@ let com_sums f lab l =
            (map (fun sc -> Z.add (fst sc) (Z.mul (aget f p) (snd sc)))
              (combine (snd acc) p)))
     else acc)
-    (combine (zseq Z0 (Z.to_nat (size f.shape))) (all_positions f.shape))
+    (combine (zseq Z0 (Z.to_nat (size0 f.shape))) (all_positions f.shape))
     (Z0, (map (fun _ -> Z0) f.shape))
 
 (** val qf_join : z list -> z -> z -> z list **)
@@ -2686,7 +2736,7 @@ let rec dt_nd t1 sh dat =
   match sh with
   | [] -> dat
   | d :: r ->
-    let sz = size r in
+    let sz = size0 r in
     let g = pass_axis0 t1 d sz dat in
     flat_map (fun i -> dt_nd t1 r (block sz i g)) (zseq Z0 (Z.to_nat d))
 
@@ -2752,7 +2802,7 @@ let rec dt_ndo sh dat =
   match sh with
   | [] -> dat
   | d :: r ->
-    let sz = size r in
+    let sz = size0 r in
     let g = pass_axis0o d sz dat in
     flat_map (fun i -> dt_ndo r (blocko sz i g)) (zseq Z0 (Z.to_nat d))
 
@@ -2991,6 +3041,462 @@ let euler_powers =
   ((Zpos XH) :: ((Zpos (XO XH)) :: [])) :: (((Zpos (XO (XO XH))) :: ((Zpos
     (XO (XO (XO XH)))) :: [])) :: [])
 
+(** val daubechies_tables : q list list **)
+
+let daubechies_tables =
+  ({ qnum = (Zpos XH); qden = XH } :: ({ qnum = (Zpos XH); qden =
+    XH } :: [])) :: (({ qnum = (Zpos (XI (XI (XI (XI (XO (XI (XO (XO (XO (XO
+    (XO (XI (XI (XI (XO (XO (XO (XO (XO (XI (XO (XI
+    XH))))))))))))))))))))))); qden = (XO (XO (XO (XO (XO (XO (XO (XI (XO (XI
+    (XI (XO (XI (XO (XO (XI (XO (XO (XO (XI (XI (XO (XO
+    XH))))))))))))))))))))))) } :: ({ qnum = (Zpos (XI (XI (XI (XI (XO (XI
+    (XI (XO (XI (XI (XO (XO (XO (XO (XO (XI (XO (XO (XI (XO (XI (XI (XO
+    XH)))))))))))))))))))))))); qden = (XO (XO (XO (XO (XO (XO (XO (XI (XO
+    (XI (XI (XO (XI (XO (XO (XI (XO (XO (XO (XI (XI (XO (XO
+    XH))))))))))))))))))))))) } :: ({ qnum = (Zpos (XI (XO (XO (XO (XI (XO
+    (XI (XO (XO (XI (XI (XI (XI (XO (XI (XO (XO (XO (XO (XO (XI
+    XH)))))))))))))))))))))); qden = (XO (XO (XO (XO (XO (XO (XO (XI (XO (XI
+    (XI (XO (XI (XO (XO (XI (XO (XO (XO (XI (XI (XO (XO
+    XH))))))))))))))))))))))) } :: ({ qnum = (Zneg (XI (XI (XI (XI (XO (XI
+    (XI (XI (XO (XO (XI (XI (XO (XI (XI (XI (XI (XI (XO (XI
+    XH))))))))))))))))))))); qden = (XO (XO (XO (XO (XO (XO (XO (XI (XO (XI
+    (XI (XO (XI (XO (XO (XI (XO (XO (XO (XI (XI (XO (XO
+    XH))))))))))))))))))))))) } :: [])))) :: (({ qnum = (Zpos (XI (XO (XO (XO
+    (XO (XO (XI (XO (XO (XO (XO (XO (XO (XI (XI (XI (XI (XO (XI (XI (XO (XO
+    (XI (XI (XO XH)))))))))))))))))))))))))); qden = (XO (XO (XO (XO (XO (XO
+    (XO (XO (XI (XO (XO (XO (XO (XI (XI (XI (XI (XO (XI (XO (XI (XI (XI (XI
+    (XI (XO XH)))))))))))))))))))))))))) } :: ({ qnum = (Zpos (XI (XI (XO (XO
+    (XI (XI (XO (XO (XI (XO (XI (XI (XO (XO (XI (XO (XI (XI (XO (XO (XI (XI
+    (XO (XI XH))))))))))))))))))))))))); qden = (XO (XO (XO (XO (XO (XO (XI
+    (XO (XO (XO (XO (XI (XI (XI (XI (XO (XI (XO (XI (XI (XI (XI (XI (XO
+    XH)))))))))))))))))))))))) } :: ({ qnum = (Zpos (XI (XO (XO (XI (XI (XO
+    (XO (XO (XO (XO (XI (XI (XI (XI (XI (XI XH))))))))))))))))); qden = (XO
+    (XO (XO (XO (XO (XO (XI (XO (XI (XO (XI (XI (XO (XO (XO (XO (XI
+    XH))))))))))))))))) } :: ({ qnum = (Zneg (XI (XO (XO (XO (XO (XI (XI (XI
+    (XI (XI (XO (XI (XO (XI (XO (XI (XI (XO (XO (XO (XI (XO (XO
+    XH)))))))))))))))))))))))); qden = (XO (XO (XO (XO (XO (XO (XO (XI (XO
+    (XO (XO (XO (XI (XI (XI (XI (XO (XI (XO (XI (XI (XI (XI (XI (XO
+    XH))))))))))))))))))))))))) } :: ({ qnum = (Zneg (XI (XO (XI (XO (XI (XO
+    (XO (XO (XO (XO (XO (XO (XO (XI (XI (XO (XO (XO (XO (XI (XI (XI (XO
+    XH)))))))))))))))))))))))); qden = (XO (XO (XO (XO (XO (XO (XO (XO (XI
+    (XO (XO (XO (XO (XI (XI (XI (XI (XO (XI (XO (XI (XI (XI (XI (XI (XO
+    XH)))))))))))))))))))))))))) } :: ({ qnum = (Zpos (XI (XI (XI (XO (XI (XO
+    (XI (XI (XI (XO (XI (XI (XO (XO XH))))))))))))))); qden = (XO (XO (XO (XO
+    (XO (XO (XO (XI (XO (XI (XO (XI (XI (XO (XO (XO (XO (XI
+    XH)))))))))))))))))) } :: [])))))) :: (({ qnum = (Zpos (XI (XI (XI (XO
+    (XI (XI (XI (XI (XO (XI (XO (XO (XO (XI (XO (XO (XI (XO (XO (XO (XI (XI
+    (XI (XI XH))))))))))))))))))))))))); qden = (XO (XO (XO (XO (XO (XO (XO
+    (XO (XI (XO (XO (XO (XO (XI (XI (XI (XI (XO (XI (XO (XI (XI (XI (XI (XI
+    (XO XH)))))))))))))))))))))))))) } :: ({ qnum = (Zpos (XI (XI (XO (XI (XO
+    (XI (XO (XO (XI (XO (XI (XO (XO (XI (XO (XI (XI (XO (XO (XO (XO (XO (XO
+    (XI XH))))))))))))))))))))))))); qden = (XO (XO (XO (XO (XO (XO (XI (XO
+    (XO (XO (XO (XI (XI (XI (XI (XO (XI (XO (XI (XI (XI (XI (XI (XO
+    XH)))))))))))))))))))))))) } :: ({ qnum = (Zpos (XI (XI (XI (XI (XO (XO
+    (XI (XI (XI (XO (XO (XO (XI (XO (XO (XO (XO (XO (XI (XO (XO (XO
+    XH))))))))))))))))))))))); qden = (XO (XO (XO (XO (XO (XO (XI (XO (XI (XI
+    (XO (XI (XO (XO (XI (XO (XO (XO (XI (XI (XO (XO
+    XH)))))))))))))))))))))) } :: ({ qnum = (Zneg (XI (XI (XI (XI (XI (XI (XI
+    (XI (XO (XI (XO (XO (XO (XI (XI (XO (XO (XO (XI (XI (XI
+    XH)))))))))))))))))))))); qden = (XO (XO (XO (XO (XO (XO (XO (XO (XI (XO
+    (XO (XO (XO (XI (XI (XI (XI (XO (XI (XO (XI (XI (XI (XI (XI (XO
+    XH)))))))))))))))))))))))))) } :: ({ qnum = (Zneg (XI (XO (XI (XI (XI (XO
+    (XO (XO (XI (XI (XO (XI (XI (XO (XO (XI (XI (XI (XO (XO (XI (XO (XO (XI
+    XH))))))))))))))))))))))))); qden = (XO (XO (XO (XO (XO (XO (XO (XO (XI
+    (XO (XO (XO (XO (XI (XI (XI (XI (XO (XI (XO (XI (XI (XI (XI (XI (XO
+    XH)))))))))))))))))))))))))) } :: ({ qnum = (Zpos (XI (XI (XO (XO (XO (XO
+    (XI (XI (XI (XI (XI (XO (XO (XI (XO (XI (XO (XI XH)))))))))))))))))));
+    qden = (XO (XO (XO (XO (XO (XO (XO (XI (XO (XI (XI (XO (XI (XO (XO (XI
+    (XO (XO (XO (XI (XI (XO (XO XH))))))))))))))))))))))) } :: ({ qnum =
+    (Zpos (XI (XI (XO (XO (XO (XI (XO (XO (XO (XI (XI (XO (XO (XO (XI (XI
+    XH))))))))))))))))); qden = (XO (XO (XO (XO (XO (XI (XO (XI (XI (XO (XI
+    (XO (XO (XI (XO (XO (XO (XI (XI (XO (XO
+    XH))))))))))))))))))))) } :: ({ qnum = (Zneg (XI (XI (XO (XI (XO (XO (XI
+    (XO (XO (XI (XI (XI (XI (XO (XI (XI (XO (XI (XI (XO
+    XH))))))))))))))))))))); qden = (XO (XO (XO (XO (XO (XO (XO (XO (XI (XO
+    (XO (XO (XO (XI (XI (XI (XI (XO (XI (XO (XI (XI (XI (XI (XI (XO
+    XH)))))))))))))))))))))))))) } :: [])))))))) :: (({ qnum = (Zpos (XI (XO
+    (XI (XO (XI (XI (XI (XO (XO (XI (XI (XI (XI (XI (XO (XI (XO (XO (XI (XI
+    (XO (XI (XO XH)))))))))))))))))))))))); qden = (XO (XO (XO (XO (XO (XO
+    (XO (XI (XO (XO (XO (XO (XI (XI (XI (XI (XO (XI (XO (XI (XI (XI (XI (XI
+    (XO XH))))))))))))))))))))))))) } :: ({ qnum = (Zpos (XI (XO (XO (XI (XI
+    (XO (XI (XI (XI (XO (XO (XO (XO (XO (XO (XI (XI (XI (XO (XI (XO (XO (XO
+    (XI (XO XH)))))))))))))))))))))))))); qden = (XO (XO (XO (XO (XO (XO (XO
+    (XI (XO (XO (XO (XO (XI (XI (XI (XI (XO (XI (XO (XI (XI (XI (XI (XI (XO
+    XH))))))))))))))))))))))))) } :: ({ qnum = (Zpos (XI (XI (XO (XI (XI (XO
+    (XI (XI (XI (XI (XI (XI (XI (XI (XI (XO (XI (XO (XI (XI (XO (XO (XO (XO
+    (XI XH)))))))))))))))))))))))))); qden = (XO (XO (XO (XO (XO (XO (XO (XI
+    (XO (XO (XO (XO (XI (XI (XI (XI (XO (XI (XO (XI (XI (XI (XI (XI (XO
+    XH))))))))))))))))))))))))) } :: ({ qnum = (Zpos (XI (XI (XI (XI (XO (XI
+    (XI (XI (XO (XI (XI (XO (XI (XO (XI (XO (XI (XO (XI (XO (XO
+    XH)))))))))))))))))))))); qden = (XO (XO (XO (XO (XO (XI (XO (XO (XO (XO
+    (XI (XI (XI (XI (XO (XI (XO (XI (XI (XI (XI (XI (XO
+    XH))))))))))))))))))))))) } :: ({ qnum = (Zneg (XI (XI (XI (XO (XO (XO
+    (XI (XO (XO (XI (XO (XI (XI (XO (XI (XI (XO (XI (XO (XI (XO (XO (XO (XO
+    (XO XH)))))))))))))))))))))))))); qden = (XO (XO (XO (XO (XO (XO (XO (XO
+    (XI (XO (XO (XO (XO (XI (XI (XI (XI (XO (XI (XO (XI (XI (XI (XI (XI (XO
+    XH)))))))))))))))))))))))))) } :: ({ qnum = (Zneg (XI (XO (XO (XO (XI (XI
+    (XI (XI (XO (XO (XI (XO (XI (XO (XO (XI (XI (XO (XI (XO (XO (XO
+    XH))))))))))))))))))))))); qden = (XO (XO (XO (XO (XO (XO (XO (XO (XI (XO
+    (XO (XO (XO (XI (XI (XI (XI (XO (XI (XO (XI (XI (XI (XI (XI (XO
+    XH)))))))))))))))))))))))))) } :: ({ qnum = (Zpos (XI (XO (XI (XO (XO (XO
+    (XO (XI (XO (XI (XO (XI (XI (XI (XI (XO (XI (XO (XO (XO (XO
+    XH)))))))))))))))))))))); qden = (XO (XO (XO (XO (XO (XO (XO (XO (XI (XO
+    (XI (XI (XO (XI (XO (XO (XI (XO (XO (XO (XI (XI (XO (XO
+    XH)))))))))))))))))))))))) } :: ({ qnum = (Zneg (XI (XI (XO (XO (XI (XI
+    (XO (XO (XO (XI (XI (XO (XI (XO XH))))))))))))))); qden = (XO (XO (XO (XO
+    (XO (XI (XO (XI (XI (XO (XI (XO (XO (XI (XO (XO (XO (XI (XI (XO (XO
+    XH))))))))))))))))))))) } :: ({ qnum = (Zneg (XI (XI (XO (XO (XI (XI (XI
+    (XI (XI (XO (XI (XO (XO (XI (XO (XO (XI (XI (XO (XI
+    XH))))))))))))))))))))); qden = (XO (XO (XO (XO (XO (XO (XO (XO (XI (XO
+    (XO (XO (XO (XI (XI (XI (XI (XO (XI (XO (XI (XI (XI (XI (XI (XO
+    XH)))))))))))))))))))))))))) } :: ({ qnum = (Zpos (XI (XI (XI (XI (XI (XI
+    (XO (XI (XO (XI (XO (XO (XI (XI (XO (XO (XI (XI XH)))))))))))))))))));
+    qden = (XO (XO (XO (XO (XO (XO (XO (XO (XI (XO (XO (XO (XO (XI (XI (XI
+    (XI (XO (XI (XO (XI (XI (XI (XI (XI (XO
+    XH)))))))))))))))))))))))))) } :: [])))))))))) :: (({ qnum = (Zpos (XI
+    (XI (XO (XO (XO (XI (XO (XO (XO (XI (XO (XO (XI (XI (XO (XI (XO (XO (XO
+    (XO (XI (XI (XI XH)))))))))))))))))))))))); qden = (XO (XO (XO (XO (XO
+    (XO (XO (XO (XI (XO (XO (XO (XO (XI (XI (XI (XI (XO (XI (XO (XI (XI (XI
+    (XI (XI (XO XH)))))))))))))))))))))))))) } :: ({ qnum = (Zpos (XI (XO (XI
+    (XI (XO (XI (XO (XI (XI (XI (XO (XI (XI (XO (XI (XO (XI (XI (XO (XI (XO
+    (XI (XO (XO (XO (XO XH))))))))))))))))))))))))))); qden = (XO (XO (XO (XO
+    (XO (XO (XO (XO (XI (XO (XO (XO (XO (XI (XI (XI (XI (XO (XI (XO (XI (XI
+    (XI (XI (XI (XO XH)))))))))))))))))))))))))) } :: ({ qnum = (Zpos (XI (XO
+    (XO (XI (XI (XO (XI (XO (XO (XO (XI (XI (XI (XO (XO (XI (XO (XI (XO (XI
+    (XO (XO (XI XH)))))))))))))))))))))))); qden = (XO (XO (XO (XO (XO (XI
+    (XO (XO (XO (XO (XI (XI (XI (XI (XO (XI (XO (XI (XI (XI (XI (XI (XO
+    XH))))))))))))))))))))))) } :: ({ qnum = (Zpos (XI (XI (XI (XO (XI (XI
+    (XO (XO (XO (XI (XO (XO (XI (XO (XO (XO (XO (XI (XO (XI (XO (XI (XO
+    XH)))))))))))))))))))))))); qden = (XO (XO (XO (XO (XO (XO (XI (XO (XO
+    (XO (XO (XI (XI (XI (XI (XO (XI (XO (XI (XI (XI (XI (XI (XO
+    XH)))))))))))))))))))))))) } :: ({ qnum = (Zneg (XI (XO (XI (XI (XI (XI
+    (XO (XI (XI (XO (XO (XI (XO (XI (XI (XO (XO (XO (XO (XI
+    XH))))))))))))))))))))); qden = (XO (XO (XO (XO (XO (XO (XI (XO (XI (XI
+    (XO (XI (XO (XO (XI (XO (XO (XO (XI (XI (XO (XO
+    XH)))))))))))))))))))))) } :: ({ qnum = (Zneg (XI (XI (XI (XI (XI (XO (XI
+    (XO (XI (XI (XO (XO (XO (XO (XO (XO (XO (XO (XI (XI (XO (XO (XO
+    XH)))))))))))))))))))))))); qden = (XO (XO (XO (XO (XO (XO (XO (XI (XO
+    (XO (XO (XO (XI (XI (XI (XI (XO (XI (XO (XI (XI (XI (XI (XI (XO
+    XH))))))))))))))))))))))))) } :: ({ qnum = (Zpos (XI (XO (XO (XI (XO (XO
+    (XO (XI (XO (XI (XI (XO (XO (XI (XI (XO (XO (XI (XO (XO (XI (XO (XI
+    XH)))))))))))))))))))))))); qden = (XO (XO (XO (XO (XO (XO (XO (XO (XI
+    (XO (XO (XO (XO (XI (XI (XI (XI (XO (XI (XO (XI (XI (XI (XI (XI (XO
+    XH)))))))))))))))))))))))))) } :: ({ qnum = (Zpos (XI (XO (XO (XO (XO (XI
+    (XI (XO (XO (XO (XI (XO (XO (XI (XI (XO (XI (XI (XO (XI (XI
+    XH)))))))))))))))))))))); qden = (XO (XO (XO (XO (XO (XO (XO (XO (XI (XO
+    (XO (XO (XO (XI (XI (XI (XI (XO (XI (XO (XI (XI (XI (XI (XI (XO
+    XH)))))))))))))))))))))))))) } :: ({ qnum = (Zneg (XI (XI (XO (XO (XI (XO
+    (XO (XI (XI (XI (XO (XI (XO (XO (XO XH)))))))))))))))); qden = (XO (XO
+    (XO (XO (XO (XO (XO (XO (XI (XO (XI (XO (XI (XI (XO (XO (XO (XO (XI
+    XH))))))))))))))))))) } :: ({ qnum = (Zpos (XI (XO (XI (XI (XO (XI (XI
+    (XO (XI (XI (XI (XO (XI (XI (XI (XI (XO (XI (XO (XI (XO (XI (XI (XI (XO
+    XH)))))))))))))))))))))))))); qden = (XO (XO (XO (XO (XO (XO (XO (XO (XI
+    (XO (XO (XO (XI (XO (XI (XO (XO (XI (XO (XI (XO (XO (XI (XO (XI (XO (XI
+    (XI (XO (XO (XO (XI (XO (XI (XI
+    XH))))))))))))))))))))))))))))))))))) } :: ({ qnum = (Zpos (XI (XI (XI
+    (XO (XI (XI (XO (XI (XI (XI (XO (XI (XI (XI (XO (XO (XI (XO (XO (XO (XI
+    (XO (XO (XO (XO (XI (XO XH)))))))))))))))))))))))))))); qden = (XO (XO
+    (XO (XO (XO (XO (XO (XO (XO (XI (XO (XI (XI (XI (XO (XI (XI (XO (XI (XI
+    (XI (XO (XO (XO (XO (XI (XO (XO (XI (XO (XI (XI (XI (XO
+    XH)))))))))))))))))))))))))))))))))) } :: ({ qnum = (Zneg (XI (XO (XI (XO
+    (XO (XI (XI (XO (XO (XI (XO (XI (XI (XI (XO (XI (XO (XO (XI (XO (XI (XO
+    (XO (XO (XI (XO (XO XH)))))))))))))))))))))))))))); qden = (XO (XO (XO
+    (XO (XO (XO (XO (XO (XO (XO (XO (XI (XO (XI (XI (XI (XO (XI (XI (XO (XI
+    (XI (XI (XO (XO (XO (XO (XI (XO (XO (XI (XO (XI (XI (XI (XO
+    XH)))))))))))))))))))))))))))))))))))) } :: [])))))))))))) :: (({ qnum =
+    (Zpos (XI (XI (XI (XO (XI (XO (XO (XI (XI (XI (XI (XI (XI (XI (XI (XI (XI
+    (XI (XI (XO (XO (XI (XO XH)))))))))))))))))))))))); qden = (XO (XO (XO
+    (XO (XO (XO (XO (XO (XI (XO (XO (XO (XO (XI (XI (XI (XI (XO (XI (XO (XI
+    (XI (XI (XI (XI (XO XH)))))))))))))))))))))))))) } :: ({ qnum = (Zpos (XI
+    (XI (XO (XO (XO (XI (XI (XO (XO (XI (XI (XO (XI (XI (XI (XI (XO (XI (XO
+    (XI (XO (XI XH))))))))))))))))))))))); qden = (XO (XO (XO (XO (XO (XI (XO
+    (XO (XO (XO (XI (XI (XI (XI (XO (XI (XO (XI (XI (XI (XI (XI (XO
+    XH))))))))))))))))))))))) } :: ({ qnum = (Zpos (XI (XO (XO (XO (XO (XI
+    (XI (XO (XO (XO (XO (XI (XO (XI (XI (XO (XI (XO (XI (XO (XO (XI (XO (XO
+    (XO (XI XH))))))))))))))))))))))))))); qden = (XO (XO (XO (XO (XO (XO (XO
+    (XO (XI (XO (XO (XO (XO (XI (XI (XI (XI (XO (XI (XO (XI (XI (XI (XI (XI
+    (XO XH)))))))))))))))))))))))))) } :: ({ qnum = (Zpos (XI (XO (XO (XO (XO
+    (XO (XO (XI (XI (XI (XO (XI (XO (XI (XI (XI (XI (XI
+    XH))))))))))))))))))); qden = (XO (XI (XO (XO (XO (XO (XI (XI (XI (XI (XO
+    (XI (XO (XI (XI (XI (XI (XI (XO XH))))))))))))))))))) } :: ({ qnum =
+    (Zneg (XI (XI (XO (XI (XO (XO (XI (XI (XO (XO (XI (XO (XO (XO (XI (XO (XI
+    (XI (XO (XI (XI (XO (XO XH)))))))))))))))))))))))); qden = (XO (XO (XO
+    (XO (XO (XO (XO (XI (XO (XO (XO (XO (XI (XI (XI (XI (XO (XI (XO (XI (XI
+    (XI (XI (XI (XO XH))))))))))))))))))))))))) } :: ({ qnum = (Zneg (XI (XO
+    (XI (XI (XO (XI (XO (XI (XI (XI (XO (XO (XI (XI (XI (XO (XI (XI (XO (XO
+    (XO (XI (XI (XI XH))))))))))))))))))))))))); qden = (XO (XO (XO (XO (XO
+    (XO (XO (XO (XI (XO (XO (XO (XO (XI (XI (XI (XI (XO (XI (XO (XI (XI (XI
+    (XI (XI (XO XH)))))))))))))))))))))))))) } :: ({ qnum = (Zpos (XI (XI (XO
+    (XO (XI (XO (XI (XO (XI (XI (XO (XO (XO (XI (XI (XO (XI (XI (XI
+    XH)))))))))))))))))))); qden = (XO (XO (XO (XO (XO (XO (XO (XI (XO (XI
+    (XI (XO (XI (XO (XO (XI (XO (XO (XO (XI (XI (XO (XO
+    XH))))))))))))))))))))))) } :: ({ qnum = (Zpos (XI (XO (XI (XO (XO (XO
+    (XO (XI (XO (XI (XO (XI (XO (XO (XI (XI (XO (XI (XO (XO (XO
+    XH)))))))))))))))))))))); qden = (XO (XO (XO (XO (XO (XO (XO (XO (XI (XO
+    (XI (XI (XO (XI (XO (XO (XI (XO (XO (XO (XI (XI (XO (XO
+    XH)))))))))))))))))))))))) } :: ({ qnum = (Zneg (XI (XO (XO (XO (XO (XO
+    (XI (XI (XI (XO (XO (XI (XO (XI (XI (XO (XO (XO (XO (XO
+    XH))))))))))))))))))))); qden = (XO (XO (XO (XO (XO (XO (XO (XO (XI (XO
+    (XI (XI (XO (XI (XO (XO (XI (XO (XO (XO (XI (XI (XO (XO
+    XH)))))))))))))))))))))))) } :: ({ qnum = (Zneg (XI (XO (XI (XI (XI (XO
+    (XO (XO (XO (XI (XO (XO (XO (XI (XI (XI (XI (XO (XO (XO
+    XH))))))))))))))))))))); qden = (XO (XO (XO (XO (XO (XO (XO (XI (XO (XO
+    (XO (XO (XI (XI (XI (XI (XO (XI (XO (XI (XI (XI (XI (XI (XO
+    XH))))))))))))))))))))))))) } :: ({ qnum = (Zpos (XI (XI (XO (XO (XO (XO
+    (XO (XI (XI (XO (XI (XO (XI (XO (XO (XO (XI (XI (XO (XI
+    XH))))))))))))))))))))); qden = (XO (XO (XO (XO (XO (XO (XO (XO (XI (XO
+    (XO (XO (XO (XI (XI (XI (XI (XO (XI (XO (XI (XI (XI (XI (XI (XO
+    XH)))))))))))))))))))))))))) } :: ({ qnum = (Zpos (XI (XI (XI (XO (XI (XO
+    (XO (XO (XI (XO (XI (XI (XI (XI (XI (XI (XI (XO (XI (XI (XI (XI (XO (XO
+    (XI (XI XH))))))))))))))))))))))))))); qden = (XO (XO (XO (XO (XO (XO (XO
+    (XO (XO (XO (XO (XO (XI (XO (XI (XI (XI (XO (XI (XI (XO (XI (XI (XI (XO
+    (XO (XO (XO (XI (XO (XO (XI (XO (XI (XI (XI (XO
+    XH))))))))))))))))))))))))))))))))))))) } :: ({ qnum = (Zneg (XI (XO (XO
+    (XI (XO (XI (XI (XO (XI (XO (XO (XI (XI (XI (XI (XI (XI (XO (XI (XO (XO
+    (XI (XI (XI XH))))))))))))))))))))))))); qden = (XO (XO (XO (XO (XO (XO
+    (XO (XO (XI (XO (XI (XI (XI (XO (XI (XI (XO (XI (XI (XI (XO (XO (XO (XO
+    (XI (XO (XO (XI (XO (XI (XI (XI (XO
+    XH))))))))))))))))))))))))))))))))) } :: ({ qnum = (Zpos (XI (XO (XI (XO
+    (XO (XI (XO (XO (XI (XI (XO (XI (XI (XO (XI (XI (XO (XO (XO (XO (XI (XO
+    (XI (XI (XI (XO (XI (XI XH))))))))))))))))))))))))))))); qden = (XO (XO
+    (XO (XO (XO (XO (XO (XO (XO (XO (XO (XO (XI (XO (XO (XO (XI (XO (XI (XO
+    (XO (XI (XO (XI (XO (XO (XI (XO (XI (XO (XI (XI (XO (XO (XO (XI (XO (XI
+    (XI
+    XH))))))))))))))))))))))))))))))))))))))) } :: [])))))))))))))) :: (({ qnum =
+    (Zpos (XI (XO (XI (XO (XO (XI (XI (XO (XO (XI (XI (XO (XI (XI (XO (XI (XO
+    (XI (XO (XI (XI XH)))))))))))))))))))))); qden = (XO (XO (XO (XO (XO (XO
+    (XO (XI (XO (XO (XO (XO (XI (XI (XI (XI (XO (XI (XO (XI (XI (XI (XI (XI
+    (XO XH))))))))))))))))))))))))) } :: ({ qnum = (Zpos (XI (XO (XI (XI (XO
+    (XO (XO (XI (XI (XO (XO (XO (XO (XO (XO (XO (XI (XI (XO (XI
+    XH))))))))))))))))))))); qden = (XO (XO (XO (XO (XO (XO (XO (XO (XI (XO
+    (XO (XI (XO (XO (XO (XO (XI (XO (XI (XI (XI
+    XH))))))))))))))))))))) } :: ({ qnum = (Zpos (XI (XI (XO (XI (XI (XO (XI
+    (XO (XI (XI (XI (XO (XI (XO (XO (XI (XI (XI (XO (XO (XO (XI (XO (XO
+    XH))))))))))))))))))))))))); qden = (XO (XO (XO (XO (XO (XO (XO (XO (XI
+    (XO (XI (XI (XO (XI (XO (XO (XI (XO (XO (XO (XI (XI (XO (XO
+    XH)))))))))))))))))))))))) } :: ({ qnum = (Zpos (XI (XO (XI (XO (XI (XO
+    (XI (XI (XI (XO (XI (XO (XO (XI (XO (XO (XI (XI (XI (XI (XO (XI (XI (XI
+    (XO (XO XH))))))))))))))))))))))))))); qden = (XO (XO (XO (XO (XO (XO (XO
+    (XO (XI (XO (XO (XO (XO (XI (XI (XI (XI (XO (XI (XO (XI (XI (XI (XI (XI
+    (XO XH)))))))))))))))))))))))))) } :: ({ qnum = (Zneg (XI (XI (XI (XO (XI
+    (XI (XO (XO (XO (XO (XI (XO (XI (XO (XO (XO (XI (XO (XO (XO
+    XH))))))))))))))))))))); qden = (XO (XO (XO (XO (XO (XO (XO (XI (XO (XO
+    (XO (XO (XI (XI (XI (XI (XO (XI (XO (XI (XI (XI (XI (XI (XO
+    XH))))))))))))))))))))))))) } :: ({ qnum = (Zneg (XI (XI (XI (XO (XO (XI
+    (XI (XI (XI (XO (XO (XO (XO (XI (XI (XI (XO (XO (XI (XO (XO (XI (XI (XO
+    (XO XH)))))))))))))))))))))))))); qden = (XO (XO (XO (XO (XO (XO (XO (XO
+    (XI (XO (XO (XO (XO (XI (XI (XI (XI (XO (XI (XO (XI (XI (XI (XI (XI (XO
+    XH)))))))))))))))))))))))))) } :: ({ qnum = (Zpos (XI (XI (XO (XI (XO (XO
+    (XI (XO (XI (XO (XI (XO (XI (XI (XI (XI (XO (XO (XI (XO (XI (XI (XI (XI
+    (XI (XO (XO XH)))))))))))))))))))))))))))); qden = (XO (XO (XO (XO (XO
+    (XO (XO (XO (XO (XO (XI (XO (XO (XO (XI (XO (XI (XO (XO (XI (XO (XI (XO
+    (XO (XI (XO (XI (XO (XI (XI (XO (XO (XO (XI (XO (XI (XI
+    XH))))))))))))))))))))))))))))))))))))) } :: ({ qnum = (Zpos (XI (XO (XI
+    (XO (XO (XI (XI (XI (XO (XO (XI (XO (XI (XI (XI (XO (XI (XO (XI (XO (XO
+    (XO XH))))))))))))))))))))))); qden = (XO (XO (XO (XO (XO (XO (XI (XO (XO
+    (XO (XO (XI (XI (XI (XI (XO (XI (XO (XI (XI (XI (XI (XI (XO
+    XH)))))))))))))))))))))))) } :: ({ qnum = (Zneg (XI (XI (XI (XO (XO (XO
+    (XO (XI (XI (XI (XI (XI (XI (XI (XO (XI (XI XH)))))))))))))))))); qden =
+    (XO (XO (XO (XO (XO (XO (XO (XI (XO (XI (XI (XO (XI (XO (XO (XI (XO (XO
+    (XO (XI (XI (XO (XO XH))))))))))))))))))))))) } :: ({ qnum = (Zneg (XI
+    (XO (XI (XI (XO (XO (XO (XI (XI (XI (XO (XO (XO (XI (XO (XO (XI (XI (XI
+    (XI (XI (XO XH))))))))))))))))))))))); qden = (XO (XO (XO (XO (XO (XO (XO
+    (XO (XI (XO (XO (XO (XO (XI (XI (XI (XI (XO (XI (XO (XI (XI (XI (XI (XI
+    (XO XH)))))))))))))))))))))))))) } :: ({ qnum = (Zpos (XI (XI (XI (XO (XI
+    (XO (XI (XO (XO (XO (XI (XI (XI XH)))))))))))))); qden = (XO (XI (XO (XO
+    (XO (XO (XI (XI (XI (XI (XO (XI (XO (XI (XI (XI (XI (XI (XO
+    XH))))))))))))))))))) } :: ({ qnum = (Zpos (XI (XO (XI (XO (XO (XI (XI
+    (XI (XI (XI (XI (XO (XI (XI (XO (XI (XO (XO XH))))))))))))))))))); qden =
+    (XO (XO (XO (XO (XO (XO (XI (XO (XO (XO (XO (XI (XI (XI (XI (XO (XI (XO
+    (XI (XI (XI (XI (XI (XO XH)))))))))))))))))))))))) } :: ({ qnum = (Zneg
+    (XI (XI (XO (XI (XO (XI (XO (XI (XI (XO (XO (XI (XO (XI (XI (XI (XO (XI
+    (XI (XO (XO (XO (XO (XI (XO (XO (XI (XO XH)))))))))))))))))))))))))))));
+    qden = (XO (XO (XO (XO (XO (XO (XO (XO (XO (XO (XI (XO (XI (XI (XI (XO
+    (XI (XI (XO (XI (XI (XI (XO (XO (XO (XO (XI (XO (XO (XI (XO (XI (XI (XI
+    (XO XH))))))))))))))))))))))))))))))))))) } :: ({ qnum = (Zneg (XI (XO
+    (XI (XO (XO (XO (XI (XO (XO (XO (XO (XO (XI (XI (XI (XO (XI (XO (XI (XO
+    (XO (XO (XO (XO (XI (XO (XO (XO (XO XH))))))))))))))))))))))))))))));
+    qden = (XO (XO (XO (XO (XO (XO (XO (XO (XO (XO (XO (XO (XI (XO (XO (XO
+    (XI (XO (XI (XO (XO (XI (XO (XI (XO (XO (XI (XO (XI (XO (XI (XI (XO (XO
+    (XO (XI (XO (XI (XI
+    XH))))))))))))))))))))))))))))))))))))))) } :: ({ qnum = (Zpos (XI (XI
+    (XI (XI (XO (XO (XO (XO (XO (XI (XI (XO (XO (XI (XO (XI (XI (XI (XI (XI
+    (XO (XI (XI (XI (XO (XO (XO (XI (XI XH))))))))))))))))))))))))))))));
+    qden = (XO (XO (XO (XO (XO (XO (XO (XO (XO (XO (XO (XO (XI (XO (XO (XO
+    (XI (XO (XI (XO (XO (XI (XO (XI (XO (XO (XI (XO (XI (XO (XI (XI (XO (XO
+    (XO (XI (XO (XI (XI
+    XH))))))))))))))))))))))))))))))))))))))) } :: ({ qnum = (Zneg (XI (XO
+    (XI (XI (XO (XI (XO (XI (XI (XO (XI (XI (XO (XO (XO (XO (XI (XI (XI (XO
+    (XO (XI (XI (XI (XI (XO (XO XH)))))))))))))))))))))))))))); qden = (XO
+    (XO (XO (XO (XO (XO (XO (XO (XO (XO (XO (XO (XI (XO (XO (XO (XI (XO (XI
+    (XO (XO (XI (XO (XI (XO (XO (XI (XO (XI (XO (XI (XI (XO (XO (XO (XI (XO
+    (XI (XI
+    XH))))))))))))))))))))))))))))))))))))))) } :: [])))))))))))))))) :: (({ qnum =
+    (Zpos (XI (XI (XI (XI (XO (XO (XO (XO (XI (XI (XI (XI (XO (XI (XI (XO (XO
+    (XO (XO (XO XH))))))))))))))))))))); qden = (XO (XO (XO (XO (XO (XO (XO
+    (XO (XI (XO (XI (XI (XO (XI (XO (XO (XI (XO (XO (XO (XI (XI (XO (XO
+    XH)))))))))))))))))))))))) } :: ({ qnum = (Zpos (XI (XI (XI (XO (XI (XO
+    (XO (XO (XO (XI (XI (XI (XI (XO (XO (XI (XO (XO (XI (XO (XI
+    XH)))))))))))))))))))))); qden = (XO (XO (XO (XO (XO (XO (XO (XI (XO (XI
+    (XI (XO (XI (XO (XO (XI (XO (XO (XO (XI (XI (XO (XO
+    XH))))))))))))))))))))))) } :: ({ qnum = (Zpos (XI (XO (XI (XI (XI (XO
+    (XI (XO (XO (XO (XI (XO (XI (XO (XO (XI (XO (XO (XI (XI (XO (XO (XO (XI
+    (XO XH)))))))))))))))))))))))))); qden = (XO (XO (XO (XO (XO (XO (XO (XI
+    (XO (XO (XO (XO (XI (XI (XI (XI (XO (XI (XO (XI (XI (XI (XI (XI (XO
+    XH))))))))))))))))))))))))) } :: ({ qnum = (Zpos (XI (XI (XO (XI (XO (XO
+    (XI (XI (XI (XI (XI (XI (XI (XO (XI (XO (XO (XI (XO (XI (XO (XO (XO (XI
+    (XI (XO XH))))))))))))))))))))))))))); qden = (XO (XO (XO (XO (XO (XO (XO
+    (XO (XI (XO (XO (XO (XO (XI (XI (XI (XI (XO (XI (XO (XI (XI (XI (XI (XI
+    (XO XH)))))))))))))))))))))))))) } :: ({ qnum = (Zpos (XI (XI (XI (XI (XI
+    (XO (XI (XO (XO (XO (XI (XI (XI (XI (XI (XO (XI (XO (XO (XI (XI
+    XH)))))))))))))))))))))); qden = (XO (XO (XO (XO (XO (XO (XO (XO (XI (XO
+    (XI (XI (XO (XI (XO (XO (XI (XO (XO (XO (XI (XI (XO (XO
+    XH)))))))))))))))))))))))) } :: ({ qnum = (Zneg (XI (XO (XI (XI (XO (XO
+    (XO (XI (XI (XI (XO (XI (XI (XO (XO (XO (XI (XI (XI (XI (XO (XO
+    XH))))))))))))))))))))))); qden = (XO (XO (XO (XO (XO (XI (XO (XO (XO (XO
+    (XI (XI (XI (XI (XO (XI (XO (XI (XI (XI (XI (XI (XO
+    XH))))))))))))))))))))))) } :: ({ qnum = (Zneg (XI (XI (XI (XI (XI (XI
+    (XI (XO (XI (XI (XO (XI (XO (XO (XI (XI (XI (XO (XO (XI (XO
+    XH)))))))))))))))))))))); qden = (XO (XO (XO (XO (XO (XO (XO (XO (XI (XO
+    (XI (XI (XO (XI (XO (XO (XI (XO (XO (XO (XI (XI (XO (XO
+    XH)))))))))))))))))))))))) } :: ({ qnum = (Zpos (XI (XO (XO (XI (XI (XI
+    (XI (XI (XO (XO (XI (XO (XO (XO (XI (XO (XO (XO (XO (XO (XO (XI (XO
+    XH)))))))))))))))))))))))); qden = (XO (XO (XO (XO (XO (XO (XO (XI (XO
+    (XO (XO (XO (XI (XI (XI (XI (XO (XI (XO (XI (XI (XI (XI (XI (XO
+    XH))))))))))))))))))))))))) } :: ({ qnum = (Zpos (XI (XI (XO (XI (XI (XI
+    (XI (XO (XI (XO (XI (XO (XO (XO (XO (XI (XO (XI (XO (XI
+    XH))))))))))))))))))))); qden = (XO (XO (XO (XO (XO (XO (XO (XO (XO (XI
+    (XO (XI (XI (XO (XI (XO (XO (XI (XO (XO (XO (XI (XI (XO (XO
+    XH))))))))))))))))))))))))) } :: ({ qnum = (Zneg (XI (XI (XO (XI (XI (XO
+    (XO (XO (XI (XO (XO (XI (XI (XI (XI (XI (XO (XO (XO (XI (XO (XO
+    XH))))))))))))))))))))))); qden = (XO (XO (XO (XO (XO (XO (XO (XI (XO (XO
+    (XO (XO (XI (XI (XI (XI (XO (XI (XO (XI (XI (XI (XI (XI (XO
+    XH))))))))))))))))))))))))) } :: ({ qnum = (Zpos (XI (XO (XI (XI (XO (XO
+    (XO (XO (XO (XO (XI (XI (XI (XI (XO (XO (XI (XI (XI (XO (XO (XI (XO (XO
+    (XI (XO (XI (XO XH))))))))))))))))))))))))))))); qden = (XO (XO (XO (XO
+    (XO (XO (XO (XO (XO (XO (XO (XO (XI (XO (XO (XO (XI (XO (XI (XO (XO (XI
+    (XO (XI (XO (XO (XI (XO (XI (XO (XI (XI (XO (XO (XO (XI (XO (XI (XI
+    XH))))))))))))))))))))))))))))))))))))))) } :: ({ qnum = (Zpos (XI (XO
+    (XO (XO (XI (XI (XO (XO (XI (XO (XO (XO (XO (XO (XI (XO (XO (XO (XO (XO
+    (XI XH)))))))))))))))))))))); qden = (XO (XO (XO (XO (XO (XO (XO (XO (XI
+    (XO (XO (XO (XO (XI (XI (XI (XI (XO (XI (XO (XI (XI (XI (XI (XI (XO
+    XH)))))))))))))))))))))))))) } :: ({ qnum = (Zneg (XI (XI (XI (XO (XO (XI
+    (XO (XI (XO (XI (XO (XI (XO (XO (XI (XO (XO (XO (XO (XO (XI (XO (XI (XI
+    (XI (XI (XI (XO (XO XH)))))))))))))))))))))))))))))); qden = (XO (XO (XO
+    (XO (XO (XO (XO (XO (XO (XO (XO (XI (XO (XI (XI (XI (XO (XI (XI (XO (XI
+    (XI (XI (XO (XO (XO (XO (XI (XO (XO (XI (XO (XI (XI (XI (XO
+    XH)))))))))))))))))))))))))))))))))))) } :: ({ qnum = (Zneg (XI (XO (XI
+    (XI (XI (XI (XI (XO (XI (XO (XO (XO (XI (XO (XO (XI (XI (XI (XO (XI (XO
+    (XO (XO (XO (XO (XI (XO (XO XH))))))))))))))))))))))))))))); qden = (XO
+    (XO (XO (XO (XO (XO (XO (XO (XO (XO (XI (XO (XI (XI (XI (XO (XI (XI (XO
+    (XI (XI (XI (XO (XO (XO (XO (XI (XO (XO (XI (XO (XI (XI (XI (XO
+    XH))))))))))))))))))))))))))))))))))) } :: ({ qnum = (Zpos (XI (XI (XO
+    (XI (XO (XO (XI (XO (XO (XI (XO (XO (XO (XI (XI (XO (XO (XI (XO (XO (XI
+    (XI (XI (XI XH))))))))))))))))))))))))); qden = (XO (XO (XO (XO (XO (XO
+    (XO (XO (XI (XO (XI (XI (XI (XO (XI (XI (XO (XI (XI (XI (XO (XO (XO (XO
+    (XI (XO (XO (XI (XO (XI (XI (XI (XO
+    XH))))))))))))))))))))))))))))))))) } :: ({ qnum = (Zpos (XI (XI (XI (XI
+    (XO (XO (XO (XI (XI (XO (XO (XI (XO (XO (XO (XI (XI (XI (XO (XI (XO (XI
+    (XI (XO (XI (XI (XO (XO XH))))))))))))))))))))))))))))); qden = (XO (XO
+    (XO (XO (XO (XO (XO (XO (XO (XO (XO (XO (XI (XO (XO (XO (XI (XO (XI (XO
+    (XO (XI (XO (XI (XO (XO (XI (XO (XI (XO (XI (XI (XO (XO (XO (XI (XO (XI
+    (XI XH))))))))))))))))))))))))))))))))))))))) } :: ({ qnum = (Zneg (XI
+    (XI (XI (XI (XI (XO (XO (XO (XI (XO (XO (XI (XO (XI (XO (XO (XI (XO (XI
+    (XI (XI (XI (XO (XO (XI (XO (XI (XO XH)))))))))))))))))))))))))))));
+    qden = (XO (XO (XO (XO (XO (XO (XO (XO (XO (XO (XO (XO (XI (XO (XO (XO
+    (XI (XO (XI (XO (XO (XI (XO (XI (XO (XO (XI (XO (XI (XO (XI (XI (XO (XO
+    (XO (XI (XO (XI (XI
+    XH))))))))))))))))))))))))))))))))))))))) } :: ({ qnum = (Zpos (XI (XO
+    (XI (XO (XO (XI (XO (XI (XO (XI (XO (XI (XO (XO (XO (XI (XO (XO (XO (XI
+    (XO (XI (XO (XI XH))))))))))))))))))))))))); qden = (XO (XO (XO (XO (XO
+    (XO (XO (XO (XO (XO (XO (XI (XO (XO (XO (XI (XO (XI (XO (XO (XI (XO (XI
+    (XO (XO (XI (XO (XI (XO (XI (XI (XO (XO (XO (XI (XO (XI (XI
+    XH)))))))))))))))))))))))))))))))))))))) } :: [])))))))))))))))))) :: (({ qnum =
+    (Zpos (XI (XO (XO (XO (XI (XO (XI (XO (XI (XI (XO (XO (XO (XI (XI (XO (XO
+    (XI (XI XH)))))))))))))))))))); qden = (XO (XO (XO (XO (XO (XO (XI (XO
+    (XO (XO (XO (XI (XI (XI (XI (XO (XI (XO (XI (XI (XI (XI (XI (XO
+    XH)))))))))))))))))))))))) } :: ({ qnum = (Zpos (XI (XO (XI (XI (XI (XI
+    (XI (XI (XO (XO (XO (XI (XO (XO (XO (XO (XI (XI (XO (XI (XO (XO (XI
+    XH)))))))))))))))))))))))); qden = (XO (XO (XO (XO (XO (XO (XO (XI (XO
+    (XO (XO (XO (XI (XI (XI (XI (XO (XI (XO (XI (XI (XI (XI (XI (XO
+    XH))))))))))))))))))))))))) } :: ({ qnum = (Zpos (XI (XI (XO (XO (XO (XO
+    (XI (XO (XO (XO (XO (XI (XO (XI (XO (XI (XI (XO (XO (XO (XI (XI (XI (XO
+    (XO (XO XH))))))))))))))))))))))))))); qden = (XO (XO (XO (XO (XO (XO (XO
+    (XO (XI (XO (XO (XO (XO (XI (XI (XI (XI (XO (XI (XO (XI (XI (XI (XI (XI
+    (XO XH)))))))))))))))))))))))))) } :: ({ qnum = (Zpos (XI (XI (XO (XI (XI
+    (XI (XI (XO (XI (XI (XO (XO (XO (XI (XO (XI (XI (XO (XI (XI (XO (XO (XI
+    (XI (XI (XO XH))))))))))))))))))))))))))); qden = (XO (XO (XO (XO (XO (XO
+    (XO (XO (XI (XO (XO (XO (XO (XI (XI (XI (XI (XO (XI (XO (XI (XI (XI (XI
+    (XI (XO XH)))))))))))))))))))))))))) } :: ({ qnum = (Zpos (XI (XI (XI (XI
+    (XI (XO (XO (XI (XI (XI (XI (XI (XI (XO (XI (XO (XI (XI (XI (XI (XO (XI
+    (XO (XO XH))))))))))))))))))))))))); qden = (XO (XO (XO (XO (XO (XO (XO
+    (XI (XO (XO (XO (XO (XI (XI (XI (XI (XO (XI (XO (XI (XI (XI (XI (XI (XO
+    XH))))))))))))))))))))))))) } :: ({ qnum = (Zneg (XI (XO (XO (XI (XI (XO
+    (XO (XO (XI (XO (XI (XO (XI (XI (XI (XI (XO (XI (XO (XI
+    XH))))))))))))))))))))); qden = (XO (XO (XO (XO (XO (XO (XI (XO (XI (XI
+    (XO (XI (XO (XO (XI (XO (XO (XO (XI (XI (XO (XO
+    XH)))))))))))))))))))))) } :: ({ qnum = (Zneg (XI (XI (XO (XO (XO (XO (XO
+    (XI (XI (XO (XI (XO (XI (XI (XO (XI (XI (XO (XO (XI (XO (XI
+    XH))))))))))))))))))))))); qden = (XO (XO (XO (XO (XO (XO (XI (XO (XO (XO
+    (XO (XI (XI (XI (XI (XO (XI (XO (XI (XI (XI (XI (XI (XO
+    XH)))))))))))))))))))))))) } :: ({ qnum = (Zpos (XI (XO (XI (XO (XI (XI
+    (XI (XO (XO (XO (XO (XI (XI (XI (XI (XI (XO (XI (XI (XO (XI
+    XH)))))))))))))))))))))); qden = (XO (XO (XO (XO (XO (XO (XO (XO (XI (XO
+    (XI (XI (XO (XI (XO (XO (XI (XO (XO (XO (XI (XI (XO (XO
+    XH)))))))))))))))))))))))) } :: ({ qnum = (Zpos (XI (XI (XO (XI (XO (XI
+    (XI (XO (XI (XI (XI (XI (XO (XO (XI (XI (XO (XO (XO (XI (XO (XO (XI
+    XH)))))))))))))))))))))))); qden = (XO (XO (XO (XO (XO (XO (XO (XO (XI
+    (XO (XO (XO (XO (XI (XI (XI (XI (XO (XI (XO (XI (XI (XI (XI (XI (XO
+    XH)))))))))))))))))))))))))) } :: ({ qnum = (Zneg (XI (XO (XO (XO (XI (XO
+    (XO (XO (XO (XO (XO (XO (XI (XO (XO (XO (XO (XI (XO (XI (XI (XO (XO
+    XH)))))))))))))))))))))))); qden = (XO (XO (XO (XO (XO (XO (XO (XO (XI
+    (XO (XO (XO (XO (XI (XI (XI (XI (XO (XI (XO (XI (XI (XI (XI (XI (XO
+    XH)))))))))))))))))))))))))) } :: ({ qnum = (Zneg (XI (XO (XI (XI (XO (XI
+    (XI (XI (XO (XI (XO (XI (XO (XO (XO (XI (XO XH)))))))))))))))))); qden =
+    (XO (XO (XO (XO (XO (XO (XO (XO (XI (XO (XO (XI (XO (XO (XO (XO (XI (XO
+    (XI (XI (XI XH))))))))))))))))))))) } :: ({ qnum = (Zpos (XI (XO (XI (XO
+    (XI (XO (XO (XI (XI (XI (XO (XI (XO (XI (XO (XI (XI (XI (XI (XO (XO (XO
+    XH))))))))))))))))))))))); qden = (XO (XO (XO (XO (XO (XO (XO (XO (XI (XO
+    (XO (XO (XO (XI (XI (XI (XI (XO (XI (XO (XI (XI (XI (XI (XI (XO
+    XH)))))))))))))))))))))))))) } :: ({ qnum = (Zpos (XI (XO (XO (XO (XI (XI
+    (XO (XO (XO (XI (XI (XO (XO (XI (XO (XI (XO (XI (XI (XO (XO (XI (XI (XO
+    (XO (XI (XI (XI XH))))))))))))))))))))))))))))); qden = (XO (XO (XO (XO
+    (XO (XO (XO (XO (XO (XO (XO (XI (XO (XI (XI (XI (XO (XI (XI (XO (XI (XI
+    (XI (XO (XO (XO (XO (XI (XO (XO (XI (XO (XI (XI (XI (XO
+    XH)))))))))))))))))))))))))))))))))))) } :: ({ qnum = (Zneg (XI (XI (XO
+    (XI (XO (XO (XI (XO (XI (XI (XO (XI (XI XH)))))))))))))); qden = (XO (XO
+    (XO (XO (XO (XO (XI (XO (XO (XI (XO (XO (XO (XO (XI (XO (XI (XI (XI
+    XH))))))))))))))))))) } :: ({ qnum = (Zpos (XI (XI (XI (XO (XO (XO (XI
+    (XI (XI (XO (XO (XO (XO (XI (XI (XO (XO (XO (XO (XI (XI (XI (XI (XO
+    XH))))))))))))))))))))))))); qden = (XO (XO (XO (XO (XO (XO (XO (XO (XI
+    (XO (XI (XI (XI (XO (XI (XI (XO (XI (XI (XI (XO (XO (XO (XO (XI (XO (XO
+    (XI (XO (XI (XI (XI (XO
+    XH))))))))))))))))))))))))))))))))) } :: ({ qnum = (Zpos (XI (XI (XO (XO
+    (XI (XO (XI (XI (XO (XI (XO (XO (XI (XI (XI (XO (XI (XI (XO (XI (XO (XO
+    (XI (XI (XO (XO (XO (XO XH))))))))))))))))))))))))))))); qden = (XO (XO
+    (XO (XO (XO (XO (XO (XO (XO (XO (XO (XI (XO (XI (XI (XI (XO (XI (XI (XO
+    (XI (XI (XI (XO (XO (XO (XO (XI (XO (XO (XI (XO (XI (XI (XI (XO
+    XH)))))))))))))))))))))))))))))))))))) } :: ({ qnum = (Zneg (XI (XI (XI
+    (XI (XO (XI (XO (XO (XO (XO (XO (XO (XO (XO (XI (XO (XO (XI (XI (XI (XO
+    XH)))))))))))))))))))))); qden = (XO (XO (XO (XO (XO (XO (XI (XO (XI (XI
+    (XI (XO (XI (XI (XO (XI (XI (XI (XO (XO (XO (XO (XI (XO (XO (XI (XO (XI
+    (XI (XI (XO XH))))))))))))))))))))))))))))))) } :: ({ qnum = (Zneg (XI
+    (XI (XI (XO (XO (XO (XI (XO (XI (XO (XO (XO (XO (XI (XO (XI (XO (XO (XO
+    (XI (XO (XI (XI (XI (XO (XO XH))))))))))))))))))))))))))); qden = (XO (XO
+    (XO (XO (XO (XO (XO (XO (XO (XO (XO (XI (XO (XO (XO (XI (XO (XI (XO (XO
+    (XI (XO (XI (XO (XO (XI (XO (XI (XO (XI (XI (XO (XO (XO (XI (XO (XI (XI
+    XH)))))))))))))))))))))))))))))))))))))) } :: ({ qnum = (Zpos (XI (XI (XI
+    (XI (XI (XI (XO (XO (XI (XO (XO (XO (XI (XO (XO (XI (XI (XI (XO (XO (XO
+    (XI (XI (XI (XI (XI XH))))))))))))))))))))))))))); qden = (XO (XO (XO (XO
+    (XO (XO (XO (XO (XO (XO (XO (XO (XI (XO (XO (XO (XI (XO (XI (XO (XO (XI
+    (XO (XI (XO (XO (XI (XO (XI (XO (XI (XI (XO (XO (XO (XI (XO (XI (XI
+    XH))))))))))))))))))))))))))))))))))))))) } :: ({ qnum = (Zneg (XI (XO
+    (XO (XO (XO (XO (XO (XI (XI (XI (XI (XI (XI (XO (XO (XI (XO (XO (XI (XI
+    XH))))))))))))))))))))); qden = (XO (XO (XO (XO (XO (XO (XO (XO (XO (XO
+    (XO (XI (XO (XI (XI (XI (XO (XI (XI (XO (XI (XI (XI (XO (XO (XO (XO (XI
+    (XO (XO (XI (XO (XI (XI (XI (XO
+    XH)))))))))))))))))))))))))))))))))))) } :: [])))))))))))))))))))) :: [])))))))))
+
 (** val fgb : arr -> z list -> bool **)
 
 let fgb img p =
@@ -3170,6 +3676,137 @@ let fg_points f =
 
 let convexhull f =
   graham (fg_points f)
+
+(** val pairs : z list -> (z * z) list **)
+
+let rec pairs = function
+| [] -> []
+| a :: l0 -> (match l0 with
+              | [] -> []
+              | b :: t -> (a, b) :: (pairs t))
+
+(** val haar_row : z list -> z list **)
+
+let haar_row l =
+  app (map (fun ab -> Z.add (fst ab) (snd ab)) (pairs l))
+    (map (fun ab -> Z.sub (snd ab) (fst ab)) (pairs l))
+
+(** val ihaar_row : z list -> z list **)
+
+let ihaar_row l =
+  let n0 = Nat.div (length l) (S (S O)) in
+  flat_map (fun lh ->
+    (Z.div (Z.sub (fst lh) (snd lh)) (Zpos (XO XH))) :: ((Z.div
+                                                           (Z.add (fst lh)
+                                                             (snd lh)) (Zpos
+                                                           (XO XH))) :: []))
+    (combine (firstn n0 l) (skipn n0 l))
+
+(** val transpose : nat -> z list list -> z list list **)
+
+let rec transpose w rows =
+  match w with
+  | O -> []
+  | S k -> (map (fun r -> hd Z0 r) rows) :: (transpose k (map tl rows))
+
+(** val haar2d : nat -> nat -> z list list -> z list list **)
+
+let haar2d w h rows =
+  transpose h (map haar_row (transpose w (map haar_row rows)))
+
+(** val ihaar2d : nat -> nat -> z list list -> z list list **)
+
+let ihaar2d w h rows =
+  transpose h (map ihaar_row (transpose w (map ihaar_row rows)))
+
+(** val qacc : q list -> z -> q **)
+
+let qacc l p =
+  if (||) (Z.ltb p Z0) (Z.geb p (zlen l))
+  then { qnum = Z0; qden = XH }
+  else nthZ { qnum = Z0; qden = XH } l p
+
+(** val qsum : q list -> q **)
+
+let qsum l =
+  fold_right qplus { qnum = Z0; qden = XH } l
+
+(** val wavelet_row : q list -> q list -> q list **)
+
+let wavelet_row c l =
+  let nc = zlen c in
+  let half = Z.to_nat (Z.div (zlen l) (Zpos (XO XH))) in
+  app
+    (map (fun x ->
+      qsum
+        (map (fun ci ->
+          qmult
+            (nthZ { qnum = Z0; qden = XH } c (Z.sub (Z.sub nc ci) (Zpos XH)))
+            (qacc l (Z.add (Z.mul (Zpos (XO XH)) x) ci)))
+          (zseq Z0 (length c)))) (zseq Z0 half))
+    (map (fun x ->
+      qsum
+        (map (fun ci ->
+          qmult
+            (qmult
+              (if Z.even ci
+               then qopp { qnum = (Zpos XH); qden = XH }
+               else { qnum = (Zpos XH); qden = XH })
+              (nthZ { qnum = Z0; qden = XH } c ci))
+            (qacc l (Z.add (Z.mul (Zpos (XO XH)) x) ci)))
+          (zseq Z0 (length c)))) (zseq Z0 half))
+
+(** val iwavelet_row : q list -> q list -> q list **)
+
+let iwavelet_row c l =
+  let nc = zlen c in
+  let n0 = zlen l in
+  let low = firstn (Z.to_nat (Z.div n0 (Zpos (XO XH)))) l in
+  let high = skipn (Z.to_nat (Z.div n0 (Zpos (XO XH)))) l in
+  map (fun x ->
+    let terms =
+      map (fun ci ->
+        let xmap2 = Z.add (Z.sub (Z.add x ci) nc) (Zpos (XO XH)) in
+        if Z.even xmap2
+        then ({ qnum = Z0; qden = XH }, { qnum = Z0; qden = XH })
+        else let xmap = Z.quot xmap2 (Zpos (XO XH)) in
+             ((qmult (nthZ { qnum = Z0; qden = XH } c ci) (qacc low xmap)),
+             (qmult
+               (qmult
+                 (if Z.even ci
+                  then { qnum = (Zpos XH); qden = XH }
+                  else qopp { qnum = (Zpos XH); qden = XH })
+                 (nthZ { qnum = Z0; qden = XH } c
+                   (Z.sub (Z.sub nc ci) (Zpos XH)))) (qacc high xmap))))
+        (zseq Z0 (length c))
+    in
+    qdiv (qplus (qsum (map fst terms)) (qsum (map snd terms))) { qnum = (Zpos
+      (XO XH)); qden = XH }) (zseq Z0 (length l))
+
+(** val axis_geom : z -> z -> z * z **)
+
+let axis_geom c n0 =
+  let ns = Z.pow (Zpos (XO XH)) (Z.add (Z.log2 n0) c) in
+  (ns, (Z.div (Z.sub ns n0) (Zpos (XO XH))))
+
+(** val center_search : nat -> z list -> z -> z -> (z * z) list option **)
+
+let rec center_search fuel dims border0 c =
+  match fuel with
+  | O -> None
+  | S k ->
+    if (||) (existsb (fun n0 -> Z.leb (snd (axis_geom c n0)) border0) dims)
+         (match dims with
+          | [] -> true
+          | _ :: _ -> false)
+    then center_search k dims border0 (Z.add c (Zpos XH))
+    else Some (map (axis_geom c) dims)
+
+(** val center_geom : z list -> z -> (z * z) list option **)
+
+let center_geom dims border0 =
+  center_search (Z.to_nat (Z.add (Zpos (XI (XI (XI XH)))) border0)) dims
+    border0 (Zpos XH)
 
 (** val gbernsen_px : q -> q -> q -> q -> q -> bool **)
 
